@@ -422,6 +422,9 @@ func (in *Interp) callBuiltin(fr *frame, b *ssa.Builtin, args []Value, c *ssa.Ca
 			panic(goPanic{msg: "close of closed channel", site: in.site()})
 		}
 		ch.closed = true
+		// closing a channel wakes its waiters, which may run at once on another processor:
+		// a scheduling point
+		in.Yield()
 		return nil
 	case "clear":
 		switch v := args[0].(type) {
